@@ -52,7 +52,7 @@ impl Prop for C01 {
     }
     fn assumptions(&self) -> Vec<String> {
         vec![
-            "single-threaded histories (interleavings are C03)".into(),
+            "single-threaded histories (interleavings are C03); write windows are filled through the slice and through both fill shortcuts (fill_from_slice, fill_from_iter with iterators of known and of unknown length)".into(),
             "tags obey the documented contract pos < n".into(),
             "samples are compared as raw bit patterns".into(),
         ]
